@@ -5,14 +5,25 @@
 EXTENDS AdaptiveLoop, Json, IOUtils
 
 JTrace == JsonDeserialize(IOEnv.TRACE_FILE)
-VARIABLES l, bad, seen, tphase, sess
-tvars == <<vars, l, bad, seen, tphase, sess>>
+VARIABLES l, bad, seen, tphase, sess,
+          strict,   \* TRUE inside a run that announced its configuration (complete iterations of the driver)
+          tcfg,     \* that configuration
+          exp,      \* observable steps still expected in the current iteration (AdaptiveLoop!ExpectedIter)
+          loops     \* <<refinement, grading>> of the complete-iteration runs seen
+tvars == <<vars, l, bad, seen, tphase, sess, strict, tcfg, exp, loops>>
 
 \* phases the recorder can observe, in protocol order
 Order == <<"configure", "assemble", "rhs", "solve", "hh2", "hier", "residual">>
 Pos(p) == CHOOSE i \in 1..Len(Order) : Order[i] = p
+\* complete iterations: the recorded steps must be exactly the observable steps of AdaptiveLoop for this configuration
+StrictPhase(r) ==
+  IF r.phase = "iter" THEN (IF exp = <<>> THEN {} ELSE {"d:protocol-iteration-incomplete"})
+  ELSE IF r.phase = "regrid-observed"
+       THEN (IF tcfg.refinement = "uniform" /\ tcfg.grading /\ tcfg.domain \in RegridDomains THEN {} ELSE {"d:protocol-unexpected-new-mesh"})
+  ELSE IF exp # <<>> /\ Head(exp) = r.phase THEN {} ELSE {"d:protocol-step"}
 Failed(r) ==
-  IF r.k = "phase" THEN
+  IF r.k = "phase" /\ strict THEN StrictPhase(r)
+  ELSE IF r.k = "phase" THEN
        (IF r.phase \in {Order[i] : i \in 1..Len(Order)} THEN {} ELSE {"d:unknown-phase"})
        \cup (IF r.phase \in {Order[i] : i \in 1..Len(Order)} /\ tphase \in {Order[i] : i \in 1..Len(Order)} /\ r.phase # "configure" /\ r.phase # "assemble"
                 /\ Pos(r.phase) <= Pos(tphase) THEN {"d:phase-order"} ELSE {})
@@ -26,20 +37,32 @@ Failed(r) ==
        (IF r.sl_hit THEN {"d:session-matrix-file-for-small-size"} ELSE {})
        \cup (IF r.m0_hit # (r.prior = r.problem /\ HasU0(r.problem)) THEN {"d:session-vector-cache"} ELSE {})
   ELSE IF r.k = "run" THEN (IF r.exc # "" THEN {"run-failed"} ELSE {})
+                           \cup (IF strict /\ r.exc = "" /\ exp # <<>> THEN {"d:protocol-iteration-incomplete"} ELSE {})
+                           \cup (IF strict /\ r.exc = "" /\ r.iterations # tcfg.iters THEN {"d:protocol-iterations"} ELSE {})
   ELSE {}
 TInit == Init /\ l = 1 /\ bad = {} /\ seen = {} /\ tphase = "configure" /\ sess = {}
+         /\ strict = FALSE /\ tcfg = [problem |-> "none"] /\ exp = <<>> /\ loops = {}
 TStep ==
   /\ l <= Len(JTrace)
   /\ LET r == JTrace[l] IN
        /\ bad' = bad \cup {<<l, c>> : c \in Failed(r)}
        /\ seen' = IF r.k = "leaf" THEN seen \cup {<<r.problem, r.domain, r.exact>>} ELSE seen
        /\ sess' = IF r.k = "session" THEN sess \cup {<<r.prior, r.problem, r.domain, r.exact>>} ELSE sess
+       /\ strict' = IF r.k = "cfg" THEN TRUE ELSE IF r.k = "run" THEN FALSE ELSE strict
+       /\ tcfg' = IF r.k = "cfg" THEN r ELSE tcfg
+       /\ loops' = IF r.k = "cfg" THEN loops \cup {<<r.refinement, r.grading>>} ELSE loops
+       /\ exp' = IF r.k \in {"cfg", "run"} THEN <<>>
+                ELSE IF r.k = "phase" /\ strict
+                     THEN (IF r.phase = "iter" THEN ExpectedIter(tcfg)
+                           ELSE IF exp # <<>> /\ Head(exp) = r.phase THEN Tail(exp) ELSE exp)
+                ELSE exp
        /\ tphase' = IF r.k = "phase" THEN r.phase ELSE tphase
   /\ l' = l + 1 /\ UNCHANGED vars
 TSpec == TInit /\ [][TStep]_tvars
 Wanted == {<<c[1], c[2], x>> : c \in AcceptedCombos, x \in BOOLEAN}
 \* the two problems with initial data that share a domain, run one after the other from one directory, both switches
 WantedSessions == {<<a, b, "UnitSquare", x>> : <<a, b>> \in {<<"Smooth", "Singular">>, <<"Singular", "Smooth">>}, x \in BOOLEAN}
-Report == (l = Len(JTrace) + 1) => PrintT(<<"BAD", bad, "MISSING", (Wanted \ seen) \cup (WantedSessions \ sess)>>)
+WantedLoops == {<<"uniform", FALSE>>, <<"isotropic", FALSE>>, <<"anisotropic", FALSE>>, <<"anisotropic", TRUE>>}
+Report == (l = Len(JTrace) + 1) => PrintT(<<"BAD", bad, "MISSING", (Wanted \ seen) \cup (WantedSessions \ sess) \cup (WantedLoops \ loops)>>)
 Done == TLCGet("stats").diameter = Len(JTrace) + 1
 =============================================================================
